@@ -140,6 +140,27 @@ def shape_from_lib(surf):
     return d
 
 
+def asbuilt_localize(P, D, s, z):
+    """As-built replica of CoordinateSystem.localize (same operations, same expression order as the library), so that
+    the textbook-quadratic replica below sees bit-identical inputs also on tilted surfaces. NOT an oracle."""
+    x, y, zz = P[:, 0] - s.get('dx', 0.0), P[:, 1] - s.get('dy', 0.0), P[:, 2] - z
+    Lc, Mc, Nc = D[:, 0].copy(), D[:, 1].copy(), D[:, 2].copy()
+    rx, ry, rz = s.get('rx', 0.0), s.get('ry', 0.0), s.get('rz', 0.0)
+    if rx:
+        a = -rx
+        y, zz = y * np.cos(a) - zz * np.sin(a), y * np.sin(a) + zz * np.cos(a)
+        Mc, Nc = Mc * np.cos(a) - Nc * np.sin(a), Mc * np.sin(a) + Nc * np.cos(a)
+    if ry:
+        a = -ry
+        x, zz = x * np.cos(a) + zz * np.sin(a), -x * np.sin(a) + zz * np.cos(a)
+        Lc, Nc = Lc * np.cos(a) + Nc * np.sin(a), -Lc * np.sin(a) + Nc * np.cos(a)
+    if rz:
+        a = -rz
+        x, y = x * np.cos(a) - y * np.sin(a), x * np.sin(a) + y * np.cos(a)
+        Lc, Mc = Lc * np.cos(a) - Mc * np.sin(a), Lc * np.sin(a) + Mc * np.cos(a)
+    return np.stack([x, y, zz], -1), np.stack([Lc, Mc, Nc], -1)
+
+
 def textbook_conic_distance(P, D, R, k):
     """As-built replica of the known mechanism `conic-intersection-cancellation` (NOT an oracle)."""
     x, y, z = P[:, 0], P[:, 1], P[:, 2]
@@ -164,13 +185,14 @@ def classify_off_surface(sh, s, fr, P0, D0, pl_rec, near_par, tol_s):
     """Mechanism key for recorded points that are not on the prescribed sheet (class + explanation)."""
     p0l, d0l = fr.to_local_p(P0), fr.to_local_d(D0)
     if sh.is_conic():
-        if near_par and not any(s.get(q) for q in ('rx', 'ry', 'rz')):
+        if near_par:
             a_coef = np.abs((1 + sh.k) * d0l[:, 2] ** 2 + d0l[:, 0] ** 2 + d0l[:, 1] ** 2)
             if np.all(a_coef < 1e-6):
                 # as-built model of the known mechanism: the textbook quadratic evaluated exactly as the
                 # library does (same expression order, same inputs: untilted frame = plain subtraction)
-                t_ab = textbook_conic_distance(P0 - fr.o, D0, S.fnum(s['radius']), sh.k)
-                pred = (P0 - fr.o) + t_ab[:, None] * D0
+                Pl_, Dl_ = asbuilt_localize(P0, D0, s, float(fr.o[2]))
+                t_ab = textbook_conic_distance(Pl_, Dl_, S.fnum(s['radius']), sh.k)
+                pred = Pl_ + t_ab[:, None] * Dl_
                 if np.all(np.linalg.norm(pred - pl_rec, axis=1) <= 1e-9 * (1 + np.abs(t_ab))):
                     return 'on-surface:conic-intersection-cancellation'
                 return 'on-surface:unexplained'
@@ -372,8 +394,9 @@ def check_case(case, rec):
                     # is the library's point what the textbook quadratic (known mechanism) gives from ITS OWN previous
                     # record, for exactly the rays that disagree with the reference?
                     idx = np.where(both)[0]
-                    dev = np.maximum(np.max(np.abs(P[idx] - Pall[k][idx]), axis=1) / scale_len,
-                                     np.max(np.abs(D[idx] - Dall[k][idx]), axis=1))
+                    dev = np.maximum(np.maximum(np.max(np.abs(P[idx] - Pall[k][idx]), axis=1) / scale_len,
+                                                np.max(np.abs(D[idx] - Dall[k][idx]), axis=1)),
+                                     np.abs(opd[idx] - OPD[k][idx]) / scale_len)
                     mm = idx[dev > 1e-8]
                     if len(mm):
                         t_ab = textbook_conic_distance(Pall[k - 1][mm] - fr.o, Dall[k - 1][mm], S.fnum(s['radius']), sh.k)
